@@ -95,7 +95,7 @@ def programs(res, tier, wd, cases):
     return items
 
 
-N4 = 24      # length-4 histories sampled per case in the thorough tier
+N4 = 16      # length-4 histories sampled per case in the thorough tier
 
 
 def trace_key(t):
